@@ -332,18 +332,22 @@ Section Split.
   Qed.
 
   (* collecting the remaining datagrams of a split response *)
-  Lemma recv_chunks_consumes : forall e protocol (frags : list (bytes * split_packet)) acc,
-    Forall (fun dp => lenN (fst dp) <= packet_size /\ fst (split_new e protocol (buf_new (fst dp))) = Ok (snd dp)) frags ->
-    consumes (recv_chunks (length frags) e protocol acc) (map fst frags) (rev acc ++ map snd frags).
+  Definition frag_ok (e : engine) (protocol : N) (first : split_packet) (dp : bytes * split_packet) : Prop :=
+    lenN (fst dp) <= packet_size /\ fst (split_new e protocol (buf_new (fst dp))) = Ok (snd dp)
+    /\ sp_header (snd dp) = sp_header first /\ sp_id (snd dp) = sp_id first.
+  Lemma recv_chunks_consumes : forall e protocol first (frags : list (bytes * split_packet)) acc,
+    Forall (frag_ok e protocol first) frags ->
+    consumes (recv_chunks (length frags) e protocol first acc) (map fst frags) (rev acc ++ map snd frags).
   Proof.
-    intros e protocol frags. induction frags as [|[d p] frags IH]; intros acc Hall.
+    intros e protocol first frags. induction frags as [|[d p] frags IH]; intros acc Hall.
     - cbn. rewrite app_nil_r. apply consumes_ret.
-    - inversion Hall as [|x l [Hlen Hparse] Hrest]; subst. cbn [fst snd] in *.
+    - inversion Hall as [|x l [Hlen [Hparse [Hh Hi]]] Hrest]; subst. cbn [fst snd] in *.
       cbn [length recv_chunks map fst snd].
       change (d :: map fst frags) with ([d] ++ map fst frags).
       apply (consumes_bind _ _ _ _ _ _ d); [apply consumes_recv; exact Hlen|].
       change (map fst frags) with ([] ++ map fst frags).
       apply (consumes_bind _ _ _ _ _ _ p); [rewrite Hparse; apply consumes_lift|].
+      rewrite Hh, Hi, !N.eqb_refl. cbn [negb orb].
       specialize (IH (p :: acc) Hrest). cbn [rev] in IH. rewrite <- app_assoc in IH. exact IH.
   Qed.
 
@@ -351,7 +355,7 @@ Section Split.
   Lemma receive_split : forall e protocol d0 p0 (frags : list (bytes * split_packet)) kind body,
     (exists tl0, d0 = 254 :: tl0) -> lenN d0 <= packet_size ->
     fst (split_new e protocol (buf_new d0)) = Ok p0 ->
-    Forall (fun dp => lenN (fst dp) <= packet_size /\ fst (split_new e protocol (buf_new (fst dp))) = Ok (snd dp)) frags ->
+    Forall (frag_ok e protocol p0) frags ->
     N.to_nat (sp_total p0) = S (length frags) ->
     numbered_list 0 (p0 :: map snd frags) ->
     consumes (get_payload bz p0 (sp_payload p0 ++ flat_map sp_payload (map snd frags))) [] (simple_header ++ kind :: body) ->
@@ -366,7 +370,7 @@ Section Split.
     apply consumes_app_nil.
     apply (consumes_bind _ _ _ _ _ _ (map snd frags)).
     - rewrite Htot. replace (S (length frags) - 1)%nat with (length frags) by lia.
-      exact (recv_chunks_consumes e protocol frags [] Hall).
+      exact (recv_chunks_consumes e protocol p0 frags [] Hall).
     - unfold reassemble. rewrite (sort_numbered _ 0 Hnum), (numbered_from_list _ 0 Hnum). cbn [negb].
       change (@nil bytes) with (@nil bytes ++ []).
       apply (consumes_bind _ _ _ _ _ _ (simple_header ++ kind :: body)); [exact Hpay|].
@@ -394,7 +398,7 @@ Section SplitSource.
     id < 4294967296 -> total < 256 -> i < 256 -> (N.testbit id 31 && (i =? 0)) = false ->
     fst (split_new (Source ids) protocol
            (buf_new (src_frag id total i ((protocol =? 7) && engine_is (Source ids) 240) [] piece)))
-    = Ok (mk_split id total i 1248 None piece).
+    = Ok (mk_split 4294967294 id total i 1248 None piece).
   Proof.
     intros ids protocol id total i piece Hid Ht Hi Hc. unfold src_frag, split_new, read_u32, read_u16, rest_bytes.
     change (buf_new ?x) with (at_ [] x). change split_header with (le_bytes 4 4294967294). unfold le32.
@@ -412,7 +416,7 @@ Section SplitSource.
     id < 2147483648 -> total < 256 -> dsize < 4294967296 -> crc < 4294967296 ->
     fst (split_new (Source ids) protocol
            (buf_new (src_frag (id + 2147483648) total 0 ((protocol =? 7) && engine_is (Source ids) 240) (le32 dsize ++ le32 crc) piece)))
-    = Ok (mk_split (id + 2147483648) total 0 1248 (Some (dsize, crc)) piece).
+    = Ok (mk_split 4294967294 (id + 2147483648) total 0 1248 (Some (dsize, crc)) piece).
   Proof.
     intros ids protocol id total dsize crc piece Hid Ht Hd Hc. unfold src_frag, split_new, read_u32, read_u16, rest_bytes.
     change (buf_new ?x) with (at_ [] x). change split_header with (le_bytes 4 4294967294). unfold le32.
@@ -440,25 +444,26 @@ Section SplitSourceReply.
   Notation nosize := ((protocol =? 7) && engine_is (Source ids) 240).
 
   Definition frag_of (id total : N) (ip : N * bytes) : bytes := src_frag id total (fst ip) nosize [] (snd ip).
-  Definition pkt_of (id total : N) (ip : N * bytes) : split_packet := mk_split id total (fst ip) 1248 None (snd ip).
+  Definition pkt_of (id total : N) (ip : N * bytes) : split_packet := mk_split 4294967294 id total (fst ip) 1248 None (snd ip).
 
   Lemma frags_props : forall id total, id < 4294967296 -> total < 256 ->
     forall l i, i + lenN l <= 256 -> (forall j, i <= j -> (N.testbit id 31 && (j =? 0)) = false) ->
     Forall (fun d => lenN d <= packet_size) (map (frag_of id total) (number_from i l)) ->
+    forall first, sp_header first = 4294967294 -> sp_id first = id ->
     let frags := map (fun ip => (frag_of id total ip, pkt_of id total ip)) (number_from i l) in
-    Forall (fun dp => lenN (fst dp) <= packet_size /\ fst (split_new e protocol (buf_new (fst dp))) = Ok (snd dp)) frags
+    Forall (frag_ok e protocol first) frags
     /\ numbered_list i (map snd frags)
     /\ flat_map sp_payload (map snd frags) = concat l
     /\ map fst frags = map (frag_of id total) (number_from i l)
     /\ length frags = length l.
   Proof.
-    intros id total Hid Ht l. induction l as [|piece l IH]; intros i Hi Hc Hsz; cbn zeta.
+    intros id total Hid Ht l. induction l as [|piece l IH]; intros i Hi Hc Hsz first Hfh Hfi; cbn zeta.
     - cbn. repeat split; constructor.
-    - cbn [number_from map] in *. inversion Hsz as [|x xs Hs1 Hs2]; subst.
+    - cbn [number_from map] in *. inversion Hsz as [|x xs Hs1 Hs2]; subst x xs.
       assert (Hl : lenN (piece :: l) = lenN l + 1) by (unfold lenN; cbn [length]; lia).
-      destruct (IH (i + 1)) as [F1 [F2 [F3 [F4 F5]]]]; [lia|intros j Hj; apply Hc; lia|exact Hs2|].
+      destruct (IH (i + 1) ltac:(lia) ltac:(intros j Hj; apply Hc; lia) Hs2 first Hfh Hfi) as [F1 [F2 [F3 [F4 F5]]]].
       cbn zeta in *. repeat split.
-      + constructor; [|exact F1]. cbn [fst snd]. split; [exact Hs1|].
+      + constructor; [|exact F1]. unfold frag_ok. cbn [fst snd]. split; [exact Hs1|]. split; [|split; [rewrite Hfh; reflexivity|rewrite Hfi; reflexivity]].
         unfold frag_of, pkt_of. cbn [fst snd]. apply (split_new_src_plain bz); try assumption; [lia|apply Hc; lia].
       + exact F2.
       + cbn [flat_map concat pkt_of sp_payload snd]. rewrite F3. reflexivity.
@@ -488,7 +493,7 @@ Section SplitSourceReply.
     inversion Hsz as [|x xs Hs0 Hs1]; subst x xs.
     assert (Hrest : lenN rest + 1 = total) by (subst total; unfold lenN; cbn [length]; lia).
     destruct (frags_props id total ltac:(lia) ltac:(lia) rest (0 + 1) ltac:(lia)
-                ltac:(intros j Hj; rewrite (testbit31_low id Hid); reflexivity) Hs1) as [F1 [F2 [F3 [F4 F5]]]].
+                ltac:(intros j Hj; rewrite (testbit31_low id Hid); reflexivity) Hs1 (pkt_of id total (0, p0)) eq_refl eq_refl) as [F1 [F2 [F3 [F4 F5]]]].
     cbn zeta in *. split; [discriminate|].
     change (consumes (receive bz e protocol)
               (frag_of id total (0, p0) :: map (frag_of id total) (number_from (0 + 1) rest)) (kind, body)).
@@ -535,13 +540,14 @@ Section SplitBzReply.
                 (number_from 1 rest))
       with (map (frag_of ids protocol id' total) (number_from 1 rest)) in *.
     destruct (frags_props bz ids protocol id' total ltac:(subst id'; lia) ltac:(lia) rest 1 ltac:(lia)
-                ltac:(intros j Hj; destruct (j =? 0) eqn:Ej; [lia|apply andb_false_r]) Hs1) as [F1 [F2 [F3 [F4 F5]]]].
+                ltac:(intros j Hj; destruct (j =? 0) eqn:Ej; [lia|apply andb_false_r]) Hs1
+                (mk_split 4294967294 id' total 0 1248 (Some (lenN pkt, crc32 pkt)) p0) eq_refl eq_refl) as [F1 [F2 [F3 [F4 F5]]]].
     cbn zeta in *. split; [discriminate|].
     change (consumes (receive bz e protocol)
               (src_frag id' total 0 nosize (le32 (lenN pkt) ++ le32 (crc32 pkt)) p0
                :: map (frag_of ids protocol id' total) (number_from 1 rest)) (kind, body)).
     rewrite <- F4.
-    apply (receive_split bz e protocol _ (mk_split id' total 0 1248 (Some (lenN pkt, crc32 pkt)) p0) _ kind body).
+    apply (receive_split bz e protocol _ (mk_split 4294967294 id' total 0 1248 (Some (lenN pkt, crc32 pkt)) p0) _ kind body).
     - eexists. unfold src_frag, split_header. cbn [app]. reflexivity.
     - exact Hs0.
     - apply (split_new_src_bz0 bz); [exact Hid|lia|unfold max_decompressed_size in Hmax; lia|exact Hcrc].
@@ -569,7 +575,7 @@ Section SplitGoldReply.
   Qed.
 
   Definition gfrag (id total : N) (ip : N * bytes) : bytes := split_header ++ le32 id ++ [fst ip * 16 + total] ++ snd ip.
-  Definition gpkt (id total : N) (ip : N * bytes) : split_packet := mk_split id total (fst ip) 0 None (snd ip).
+  Definition gpkt (id total : N) (ip : N * bytes) : split_packet := mk_split 4294967294 id total (fst ip) 0 None (snd ip).
 
   Lemma split_new_gold : forall id total i piece, id < 4294967296 -> total < 16 -> i < 16 ->
     fst (split_new e protocol (buf_new (gfrag id total (i, piece)))) = Ok (gpkt id total (i, piece)).
@@ -585,20 +591,22 @@ Section SplitGoldReply.
   Lemma gfrags_props : forall id total, id < 4294967296 -> total < 16 ->
     forall l i, i + lenN l <= 16 ->
     Forall (fun d => lenN d <= packet_size) (map (gfrag id total) (number_from i l)) ->
+    forall first, sp_header first = 4294967294 -> sp_id first = id ->
     let frags := map (fun ip => (gfrag id total ip, gpkt id total ip)) (number_from i l) in
-    Forall (fun dp => lenN (fst dp) <= packet_size /\ fst (split_new e protocol (buf_new (fst dp))) = Ok (snd dp)) frags
+    Forall (frag_ok e protocol first) frags
     /\ numbered_list i (map snd frags)
     /\ flat_map sp_payload (map snd frags) = concat l
     /\ map fst frags = map (gfrag id total) (number_from i l)
     /\ length frags = length l.
   Proof.
-    intros id total Hid Ht l. induction l as [|piece l IH]; intros i Hi Hsz; cbn zeta.
+    intros id total Hid Ht l. induction l as [|piece l IH]; intros i Hi Hsz first Hfh Hfi; cbn zeta.
     - cbn. repeat split; constructor.
-    - cbn [number_from map] in *. inversion Hsz as [|x xs Hs1 Hs2]; subst.
+    - cbn [number_from map] in *. inversion Hsz as [|x xs Hs1 Hs2]; subst x xs.
       assert (Hl : lenN (piece :: l) = lenN l + 1) by (unfold lenN; cbn [length]; lia).
-      destruct (IH (i + 1)) as [F1 [F2 [F3 [F4 F5]]]]; [lia|exact Hs2|].
+      destruct (IH (i + 1) ltac:(lia) Hs2 first Hfh Hfi) as [F1 [F2 [F3 [F4 F5]]]].
       cbn zeta in *. repeat split.
-      + constructor; [|exact F1]. cbn [fst snd]. split; [exact Hs1|]. apply split_new_gold; lia.
+      + constructor; [|exact F1]. unfold frag_ok. cbn [fst snd]. split; [exact Hs1|].
+        split; [apply split_new_gold; lia|split; [rewrite Hfh; reflexivity|rewrite Hfi; reflexivity]].
       + exact F2.
       + cbn [flat_map concat gpkt sp_payload snd]. rewrite F3. reflexivity.
       + cbn [fst]. rewrite F4. reflexivity.
@@ -623,7 +631,7 @@ Section SplitGoldReply.
     assert (Hrest : lenN rest + 1 = total) by (subst total; unfold lenN; cbn [length]; lia).
     change (map (fun ip : N * bytes => split_header ++ le32 id ++ [fst ip * 16 + total] ++ snd ip) (number_from (0 + 1) rest))
       with (map (gfrag id total) (number_from (0 + 1) rest)) in Hs1.
-    destruct (gfrags_props id total Hid ltac:(lia) rest (0 + 1) ltac:(lia) Hs1) as [F1 [F2 [F3 [F4 F5]]]].
+    destruct (gfrags_props id total Hid ltac:(lia) rest (0 + 1) ltac:(lia) Hs1 (gpkt id total (0, p0)) eq_refl eq_refl) as [F1 [F2 [F3 [F4 F5]]]].
     cbn zeta in *. split; [discriminate|].
     change (consumes (receive bz e protocol) (gfrag id total (0, p0) :: map (gfrag id total) (number_from (0 + 1) rest)) (kind, body)).
     rewrite <- F4.
